@@ -279,6 +279,18 @@ func (vc *VC) zeroOfSort(srt string) Term {
 	}
 	z, err := vc.S.zeroOfSort(srt, nil)
 	if err != nil {
+		// a datatype sort: build the zero value from the zeros of its field sorts
+		for _, si := range vc.S.structs {
+			if si.Sort == srt {
+				var fs []Term
+				for _, f := range si.FSorts {
+					fs = append(fs, vc.zeroOfSort(f))
+				}
+				z := si.mk(fs)
+				vc.zeroBySort[srt] = z
+				return z
+			}
+		}
 		unsup("%v", err)
 	}
 	return z
